@@ -209,8 +209,11 @@ func golubKahanSVD(inSitu *InSitu, epsilon float64) (Matrix, Matrix, Matrix, err
   H, U, V, _ := householderBidiagonalization.Run(A, computeU, computeV, &inSitu.HouseholderBidiagonalization)
   B := H.Slice(0,n,0,n)
 
-  for p, q := 0, 0; q < n; {
+  for p, q, iter := 0, 0, 0; q < n; iter++ {
     verifhook.Tick("svd.golubkahan")
+    if iter >= 75*n*n {
+      return nil, nil, nil, fmt.Errorf("SVD did not converge")
+    }
 
     for i := 0; i < n-1; i++ {
       b11 := B.At(i  ,i  ).GetFloat64()
